@@ -33,18 +33,23 @@ MANIFEST = {
             "and firewalls in any order, every verdict permitting, succeed; with COLD caches a ping between two hosts on one switched "
             "LAN (other ports dead or other hosts, switch table arbitrary) and a ping host - router - host over direct cables (all "
             "three caches empty, the router's nested ARP exchange inside process_frame included) succeed, every ARP cascade part of "
-            "the statement. Tie: constants, comparison "
+            "the statement. A host's next hop for a destination outside every enabled local subnet is ALWAYS its default gateway: "
+            "a function of interfaces and gateway only, never of the ARP cache (the host-side resolution function is translated "
+            "statement by statement). Application exchanges identified by a (port, protocol) key (receiver look-up, open-port test, "
+            "answer to the source) are in the model; the addressee, termination and fuel theorems range over them. Float metrics: on "
+            "finite metrics the float loop is the integer loop; nan refutes lowest-metric-on-ties (open finding). Tie: constants, comparison "
             "operators, acceptance tests, call order and what the ranking argument rests on (DMZ broadcast guard, routers resolve "
             "without ARP, replies start nothing, ARP pairs genuine, find_best_route pure) regenerated from the source "
             "(Gen/Forward.lean) + rigs R-route and R-net (whole event streams, results and final tables of generated topologies "
-            "diffed against the model, plus the property's own oracle on the implementation) + R-app (real DNS / database exchanges "
-            "across generated routers, implementation-side oracles only).",
+            "diffed against the model, plus the property's own oracle on the implementation) + R-app (real DNS / database "
+            "/ web / FTP exchanges across generated routers, DIFFERENTIAL against the model's application exchange).",
     "note": "C08-specific: the termination theorem needs GoodCfg (unique MACs, next hops are addresses only routers carry); "
             "whether it is necessary is open (no counterexample known on the repaired code; the rig's misconfigured families "
             "terminate in model and implementation). Python's own recursion limit is outside the model. Liveness is PARTIAL: "
             "warm caches for arbitrary paths, cold caches only for one switched LAN and for host - router - host over direct "
             "cables; cold caches over switched LANs behind routers, several routers, firewalls, and the service exchange with "
-            "cold caches are checked by oracle (d) on the implementation, not proved. "
+            "cold caches are checked by oracle (d) on the implementation, not proved. FTP's client logic (PORT retry, STOR, QUIT) "
+            "is composed in the driver from proved steps, not part of the proved model. "
             "Metrics are Int in the model (float inf/nan not modelled). Rule lists are abstracted to one verdict per payload "
             "class (router: default ACL plus one permit flag; firewall: six lists x three classes); an air space frequency is "
             "modelled for two access points only; link / air space capacity is outside the forwarding model.",
